@@ -78,6 +78,10 @@ RETURNS = {   # label -> (ret spec, expected out wraps (list of (kind, type text
     'pair-voidname': (pair(T('gt::Avoider', 0, '*'), T('int')), [('wrap_shared_ptr', 'gt.Avoider'), ('wrap', 'int')], 2),
     'pair-obj-obj': (pair(T(A), T(A)), [('wrap_shared_ptr_make', 'gt::Arg', 'gt.Arg'), ('wrap_shared_ptr_make', 'gt::Arg', 'gt.Arg')], 2),
     'pair-shared-obj': (pair(T(A, 0, '*'), T('gt::Avoider')), [('wrap_shared_ptr', 'gt.Arg'), ('wrap_shared_ptr_make', 'gt::Avoider', 'gt.Avoider')], 2),
+    # raw-pointer returns (`T@`): the pointer is handed on as it is, alone and as either component of a pair
+    'raw': (single(T(A, 0, '@')), [('wrap_shared_ptr', 'gt.Arg')], 1),
+    'pair-raw-int': (pair(T(A, 0, '@'), T('int')), [('wrap_shared_ptr', 'gt.Arg'), ('wrap', 'int')], 2),
+    'pair-shared-raw': (pair(T(A, 0, '*'), T('gt::Avoider', 0, '@')), [('wrap_shared_ptr', 'gt.Arg'), ('wrap_shared_ptr', 'gt.Avoider')], 2),
     'obj-stringname': (single(T('gt::Substring')), [('wrap_shared_ptr_make', 'gt::Substring', 'gt.Substring')], 1),
     'obj-keyname': (single(T('gt::Key')), [('wrap_shared_ptr_make', 'gt::Key', 'gt.Key')], 1),
 }
